@@ -154,6 +154,9 @@ class WorkerCheck(Check):
         rr = run_worker(spec)
         base_result(rr, cr)
         self.judge(rr, spec, cr)
+        nsame = sum(1 for m in spec.get("msgs", []) if m.get("task_id"))
+        if nsame:
+            cr.counters["messages_reusing_a_task_id"] += nsame
         sigs = [O.signature(rr.trace)]
         cr.nontrivial = self.nontrivial(rr, spec)
         cr.trace = compact(rr.trace)
@@ -175,6 +178,24 @@ class WorkerCheck(Check):
                 cr.nontrivial = cr.nontrivial or self.nontrivial(r2, sub)
         cr.sig = jhash(sigs)
         return cr
+
+
+def add_same_id_messages(rng: random.Random, msgs: List[Dict[str, Any]], p: float = 0.15) -> int:
+    """Some valid messages carry the task id of an earlier one (a re-delivery by an at-least-once broker, or an id
+    the caller re-used) and arrive close to it, so that both are in flight together.  Returns how many."""
+    n = 0
+    for j in range(1, len(msgs)):
+        if msgs[j].get("kind", "valid") != "valid" or rng.random() >= p:
+            continue
+        cands = [i for i in range(j) if msgs[i].get("kind", "valid") == "valid"]
+        if not cands:
+            continue
+        i = rng.choice(cands[-3:])
+        msgs[j]["task_id"] = msgs[i].get("task_id") or msgs[i].get("tok") or f"m{i}"
+        if rng.random() < 0.7:
+            msgs[j]["at"] = round(msgs[i].get("at", 0.0) + rng.choice([0.0, 0.0, 0.001, 0.01]), 6)
+        n += 1
+    return n
 
 
 # ====================================================================================
@@ -206,6 +227,43 @@ def gen_c01_spec(rng: random.Random, maxn: int = 40) -> Dict[str, Any]:
                 m["args"] = [rng.choice([5, "x", {"a": 1}])]
         msgs.append(m)
     spec: Dict[str, Any] = {"cfg": gen_cfg(rng), "msgs": msgs}
+    r = rng.random()
+    if r < 0.12:
+        # a task registered while the worker is running (dynamic tasks): messages naming it are unknown before
+        # and known afterwards
+        at = round(rng.choice([0.05, 0.2, 0.33, 0.5, 1.0]) + 0.0137, 4)
+        spec["tasks"] = {"t_late": {"fn": rng.choice(["async", "sync"]), "late_at": at}}
+        for m in msgs:
+            if m["kind"] == "valid" and m["task"] in ("t_async", "t_sync") and rng.random() < 0.6:
+                m["task"] = "t_late"
+                if spec["tasks"]["t_late"]["fn"] == "sync":
+                    m["beh"]["dur"] = []
+    elif r < 0.24:
+        # tasks with different dependency parameters on one worker, with dependency overrides in force
+        spec["deps"] = {"d0": {"style": rng.choice(["plain_sync", "gen", "agen"])}, "d1": {"style": rng.choice(["plain_async", "cm", "acm"])},
+                        "d2": {"style": rng.choice(["plain_sync", "gen"])}}
+        spec["tasks"] = {"t_da": {"fn": "async", "deps": ["d0"], "strict_sig": True}, "t_db": {"fn": "async", "deps": ["d1"], "strict_sig": True},
+                         "t_dc": {"fn": rng.choice(["async", "sync"]), "deps": ["d0", "d1"], "strict_sig": True},
+                         "t_dn": {"fn": "async", "strict_sig": True}}
+        if rng.random() < 0.8:
+            spec["overrides"] = {rng.choice(["d0", "d1"]): "d2"}
+        for m in msgs:
+            if m["kind"] == "valid" and m["task"] in ("t_async", "t_sync") and rng.random() < 0.8:
+                m["task"] = rng.choice(["t_da", "t_db", "t_dc", "t_dn"])
+                if spec["tasks"][m["task"]]["fn"] == "sync":
+                    m["beh"]["dur"] = []
+    elif r < 0.36:
+        # the process-wide shared registry: a shared task nobody else defines must run; a shared task that has
+        # the name of one of the worker's own tasks must not replace it
+        spec["tasks"] = {"t_shared": {"fn": rng.choice(["async", "sync"]), "shared": True}}
+        spec["shadow_shared"] = rng.choice([["t_async"], ["t_sync"], ["t_async", "t_sync"], []])
+        for m in msgs:
+            if m["kind"] == "valid" and m["task"] in ("t_async", "t_sync") and rng.random() < 0.3:
+                m["task"] = "t_shared"
+                if spec["tasks"]["t_shared"]["fn"] == "sync":
+                    m["beh"]["dur"] = []
+    if rng.random() < 0.15:
+        add_same_id_messages(rng, msgs, 0.3)
     mode = rng.choice(["stop", "stop", "end", "end", "none"])
     if spec["cfg"].get("N"):
         mode = rng.choice(["stop", "end", "none", "none"])
@@ -224,9 +282,15 @@ class C01(WorkerCheck):
             "virtual-time loop; sweep cases re-run one script with the stop request at every observed event "
             "instant -eps/=/+eps and on a 0.1 s grid. Oracle: multiset {valid messages yielded} == {task "
             "function invocations}, each exactly once; invalid messages never execute; listen() neither raises "
-            "nor deadlocks. Non-trivial: >=2 messages taken and >=1 executed; distinct = distinct sequences of "
+            "nor deadlocks. A third of the scenarios add: a task registered while the worker runs (messages whose "
+            "processing began after the registration must run), tasks with different dependency parameters and "
+            "strict signatures under dependency_overrides, a task that only exists in the shared registry, and "
+            "shared tasks shadowed by own tasks of the same name (the own function must be the one invoked). "
+            "Non-trivial: >=2 messages taken and >=1 executed; distinct = distinct sequences of "
             "(event kind, delivery) in the trace(s).")
-    floors = {"events.yield": 200, "events.task_start": 100, "counters.stop_instants": 20}
+    floors = {"events.yield": 200, "events.task_start": 100, "counters.stop_instants": 20,
+              "counters.executions_of_late_registered_task": 50, "counters.executions_of_shared_only_task": 50,
+              "counters.executions_with_dependencies_overridden": 100, "counters.executions_of_own_task_shadowed_by_shared": 100}
     quick_cases = 3000
     thorough_cases = 60000
     thorough_time = 420.0
@@ -253,6 +317,18 @@ class C01(WorkerCheck):
 
     def judge(self, rr: RunResult, spec: Dict[str, Any], cr: CaseResult) -> None:
         cr.violations += O.oracle_c01(rr, spec)
+        tname = {i["d"]: i.get("task") for i in rr.sc.deliveries}
+        for e in rr.trace:
+            if e["k"] == "task_start":
+                t = tname.get(e["m"])
+                if t == "t_late":
+                    cr.counters["executions_of_late_registered_task"] += 1
+                elif t == "t_shared":
+                    cr.counters["executions_of_shared_only_task"] += 1
+                elif t in ("t_da", "t_db", "t_dc", "t_dn"):
+                    cr.counters["executions_with_dependencies" + ("_overridden" if spec.get("overrides") else "")] += 1
+                elif t in (spec.get("shadow_shared") or []):
+                    cr.counters["executions_of_own_task_shadowed_by_shared"] += 1
 
     def shard_epilogue(self, tier: str, shard: int, rng: random.Random) -> Dict[str, int]:
         """Fidelity cross-check of the virtual-time loop (thorough tier, two shards): short tie-free
@@ -344,6 +420,8 @@ def gen_c02_spec(rng: random.Random) -> Dict[str, Any]:
             m["partial_types"] = True
             m["labels"] = {"origin": "cron"}
         msgs.append(m)
+    if rng.random() < 0.3:
+        add_same_id_messages(rng, msgs, 0.4)
     spec: Dict[str, Any] = {
         "cfg": {"A": rng.choice([1, 2, 4, None]), "P": rng.choice([0, 1, 3]), "ack": ack},
         "msgs": msgs, "end_stream": True,
@@ -816,18 +894,25 @@ def gen_c06_spec(rng: random.Random, depth: int, maxmsgs: int) -> Dict[str, Any]
         beh = gen_beh(rng, ["ok", "ok", "raise"], [[], ["y"], [0.05], [0.1], [0.3]])
         if tasks[tn]["fn"] == "sync":
             beh["dur"] = []
-        msgs.append({"at": round(t, 6), "task": tn, "beh": beh, "ackable": rng.random() < 0.3,
+        msgs.append({"at": round(t, 6), "task": tn, "beh": beh, "ackable": rng.random() < 0.5,
+                     "ack_kind": rng.choice(["sync", "async", "async", "task"]), "ack_lat": rng.choice([0, "y", 0.01, 0.05, 0.2]),
                      "labels": {"k": rng.randint(0, 9)}, "raw_labels": rng.random() < 0.2,
                      "partial_types": rng.random() < 0.1})
-    spec: Dict[str, Any] = {"cfg": {"A": rng.choice([None, 2, 4, 8]), "P": rng.choice([0, 2])},
+    spec: Dict[str, Any] = {"cfg": {"A": rng.choice([None, 2, 4, 8]), "P": rng.choice([0, 2]),
+                                    "ack": rng.choice(["when_saved", "when_executed", "when_received", "when_received"])},
                             "tasks": tasks, "deps": deps, "msgs": msgs, "end_stream": True, "overrides": overrides,
                             "backend": {"lat": rng.choice([0, 0.02])}}
     if rng.random() < 0.3:
         spec["mws"] = [{"pre_execute": {"async": True, "lat": rng.choice(["y", 0.02])}}]
-    if rng.random() < 0.15:
+    if rng.random() < 0.2:
         spec["via"] = "inmemory"  # same tasks through InMemoryBroker.kick (callback in a new asyncio task per kiq)
         for m in msgs:
             m.pop("raw_labels", None)
+        if rng.random() < 0.7:
+            # the client fetches all results with taskiq.gather(), handles in an order of its own
+            order = [f"m{i}" for i in range(n)]
+            rng.shuffle(order)
+            spec["gather"] = order
     spec["horizon"] = est_horizon(spec) + 5 * len(deps)
     return spec
 
@@ -840,9 +925,13 @@ class C06(WorkerCheck):
             "between). Every dependency and task echoes (Context.message.task_id, labels['own'], args[0]); the "
             "owner is known independently (contextvar set per callback task from the delivered object, or the "
             "argument token). Oracle: every echo equals the owner token; result stored under a task id was "
-            "produced by that message and carries its labels. Non-trivial: >=2 executions overlapped in time and "
+            "produced by that message and carries its labels; ack type and slow acks vary (a suspension between "
+            "receiving and executing); in the in-memory mode the client collects results with taskiq.gather() over "
+            "handles in its own order (k-th result must belong to the k-th handle); default task ids generated in 4 "
+            "processes forked after import must not collide. Non-trivial: >=2 executions overlapped in time and "
             ">=1 dependency echo checked; distinct = distinct (kind, delivery) sequences.")
-    floors = {"counters.echoes_checked": 3000, "events.dep_open": 500}
+    floors = {"counters.echoes_checked": 3000, "events.dep_open": 500, "counters.gather_calls_checked": 50,
+              "counters.forked_ids_generated": 1000}
     quick_cases = 2000
     thorough_cases = 40000
     assumptions = ["taskiq_dependencies 1.5.7 as installed in /venv is part of the system under observation"]
@@ -855,11 +944,70 @@ class C06(WorkerCheck):
         v, checked = O.oracle_c06(rr, spec)
         cr.violations += v
         cr.counters["echoes_checked"] += checked
+        for e in rr.trace:
+            if e["k"] == "gather":
+                cr.counters["gather_calls_checked"] += 1
+                if e["got"] != e["want"]:
+                    cr.violations.append(Violation("gather-result-of-another-message", f"taskiq.gather() over handles {e['want']} returned the results of {e['got']} {e.get('exc') or ''}"))
         if rr.outcome != "returned":
             cr.violations.append(Violation("worker-stalled", f"outcome {rr.outcome} {rr.err}"))
 
     def nontrivial(self, rr: RunResult, spec: Dict[str, Any]) -> bool:
         return C02.nontrivial(self, rr, spec) and any(e["k"] == "dep_open" for e in rr.trace)  # type: ignore[arg-type]
+
+    def shard_epilogue(self, tier: str, shard: int, rng: random.Random) -> Dict[str, int]:
+        """Results are bound to messages through the task id: ids produced by the default generator in
+        processes forked from one parent that has already imported taskiq (what `taskiq worker --workers N`
+        does) and in concurrent threads must not collide.  Real fork()s, shard 0 only."""
+        if shard != 0:
+            return {}
+        return fork_id_probe(4, 300 if tier == "quick" else 3000)
+
+    def post_merge(self, merged: Dict[str, Any]) -> None:
+        c = merged["counters"]
+        if c.get("forked_id_collisions", 0):
+            merged["violations"].setdefault("task-id-collision-across-processes", {"count": 0, "first": None})
+            slot = merged["violations"]["task-id-collision-across-processes"]
+            slot["count"] += c["forked_id_collisions"]
+            if slot["first"] is None:
+                slot["first"] = {"kind": "task-id-collision-across-processes",
+                                 "msg": f"{c['forked_id_collisions']} task ids produced by the default id generator were produced twice "
+                                        "by sibling processes forked after taskiq was imported (two messages would share one result slot)",
+                                 "detail": None, "spec": {"mode": "fork-id-probe"}, "trace": None}
+
+
+def fork_id_probe(nproc: int, per_proc: int) -> Dict[str, int]:
+    import os as _os
+
+    from taskiq import InMemoryBroker
+
+    broker = InMemoryBroker()
+    broker.id_generator()  # the generator has been used in the parent before the fork
+    pipes = []
+    for _ in range(nproc):
+        r, w = _os.pipe()
+        pid = _os.fork()
+        if pid == 0:
+            try:
+                _os.close(r)
+                ids = [broker.id_generator() for _ in range(per_proc)]
+                with _os.fdopen(w, "w") as f:
+                    f.write("\n".join(ids))
+            finally:
+                _os._exit(0)
+        _os.close(w)
+        pipes.append((pid, r))
+    seen: Dict[str, int] = {}
+    total = 0
+    for pid, r in pipes:
+        with _os.fdopen(r) as f:
+            data = f.read()
+        _os.waitpid(pid, 0)
+        for i in data.split("\n"):
+            if i:
+                total += 1
+                seen[i] = seen.get(i, 0) + 1
+    return {"forked_processes": nproc, "forked_ids_generated": total, "forked_id_collisions": total - len(seen)}
 
 
 # ====================================================================================
@@ -886,6 +1034,8 @@ def gen_c07_spec(rng: random.Random) -> Dict[str, Any]:
                 beh["dur"] = ["never"]
             if rng.random() < 0.4:
                 beh["cleanup"] = rng.choice([["y"], [0.05], [0.2]])
+            if rng.random() < 0.3:
+                m["timeout_str"] = True  # the label is a string ("0.3"), as in @broker.task(timeout="0.3")
         if rng.random() < 0.2:
             fail.append(f"m{i}")
         if rng.random() < 0.15:
@@ -893,6 +1043,11 @@ def gen_c07_spec(rng: random.Random) -> Dict[str, Any]:
         msgs.append(m)
     spec: Dict[str, Any] = {"cfg": {"A": rng.choice([1, 2, 4, None]), "P": rng.choice([0, 1])}, "msgs": msgs,
                             "end_stream": True, "backend": {"lat": rng.choice([0, "y", 0.05]), "fail": fail}}
+    if rng.random() < 0.25:
+        # middlewares that annotate the message they are handed after the execution
+        spec["mws"] = [{h: {"async": rng.random() < 0.5, "mutate_labels": True} for h in ("on_error", "post_execute", "post_save") if rng.random() < 0.7}]
+        if not spec["mws"][0]:
+            spec.pop("mws")
     if rng.random() < 0.15:
         spec["via"] = "inmemory"
         spec["inplace"] = rng.random() < 0.5  # InMemoryBroker(await_inplace=True): kiq returns after the execution
@@ -975,6 +1130,17 @@ def gen_c10_spec(rng: random.Random) -> Dict[str, Any]:
     if rng.random() < 0.12 and not any(s.get("via_broker2") for s in sends):
         spec["via"] = "inmemory"
         spec["kick_lat"] = 0
+    elif rng.random() < 0.2:
+        # SimpleRetryMiddleware somewhere in the stack: its re-sends are sends too (pre_send . kick . post_send)
+        spec["retry"] = {"default_count": 3, "default_label": False, "no_result_on_retry": False, "pos": rng.randint(0, len(mws))}
+        spec["kick_fail"] = []
+        for s_ in sends:
+            s_.pop("via_broker2", None)
+            if rng.random() < 0.7:
+                s_["labels"] = {"retry_on_error": True, "max_retries": rng.choice([2, 3])}
+                b0 = s_["beh"]
+                s_["beh"] = [dict(b0, out=rng.choice(["raise:ValueError", "ok", "raise:KeyError"])) for _ in range(3)]
+                s_["beh"][0]["out"] = "raise:ValueError"
     return spec
 
 
@@ -1047,6 +1213,8 @@ def gen_c12_spec(rng: random.Random, depth: int) -> Dict[str, Any]:
             if rng.random() < 0.5:
                 beh["cleanup"] = rng.choice([["y"], [0.05], [0.2]])
         msgs.append(m)
+    if fn != "sync" and rng.random() < 0.25:
+        add_same_id_messages(rng, msgs, 0.5)  # re-deliveries: concurrent executions that share a task id
     spec: Dict[str, Any] = {
         "cfg": {"A": rng.choice([1, 2, 4, None]), "P": 0, "propagate": rng.random() < 0.6,
                 "ack": rng.choice(["when_executed", "when_saved", "when_saved", "when_received"])},
